@@ -438,6 +438,7 @@ func init() {
 			"(E6.peerdown-resets) every family's End-of-RIB flag is cleared on session loss; (E6.stale-purge) DropStale only under receivedAllEOR(), LLGR_STALE routes become withdrawals for non-LLGR peers; (E7) the first stage of the decision process is the LLGR-stale one. Also: (E6.adj-in-stores-latest) a re-announcement always replaces the stored (possibly stale) entry; (E6.restart-flag-cleared) the end of a restart clears the long-lived flag on every path.",
 		Not: "Instants and orders of timers, reconnections and End-of-RIB arrival — i.e. that stale routes live exactly as long as the RFCs allow over all histories — are not decided.",
 		Run: func(c *Ctx) {
+			c.ruleRatchets("C12")
 			c.ruleGracefulReasons()
 			c.ruleNBitNegotiated()
 			c.rulePeerDownResets("E6.peerdown-resets")
